@@ -12,14 +12,18 @@ pub mod c07;
 pub mod c08;
 pub mod c09;
 pub mod c10;
+pub mod c11;
 pub mod c13;
 pub mod c14;
+pub mod c15;
+pub mod c16;
+pub mod c18;
 pub mod c19;
 
 use crate::core::coord::PropDef;
 
 pub fn all() -> Vec<&'static PropDef> {
-    vec![&c01::DEF, &c02::DEF, &c03::DEF, &c03::DEF20, &c04::DEF, &c05::DEF, &c06::DEF, &c07::DEF, &c08::DEF, &c09::DEF, &c10::DEF, &c13::DEF, &c14::DEF, &c19::DEF]
+    vec![&c01::DEF, &c02::DEF, &c03::DEF, &c03::DEF20, &c04::DEF, &c05::DEF, &c06::DEF, &c07::DEF, &c08::DEF, &c09::DEF, &c10::DEF, &c11::DEF, &c13::DEF, &c14::DEF, &c15::DEF, &c16::DEF, &c18::DEF, &c19::DEF]
 }
 
 pub fn get(id: &str) -> Option<&'static PropDef> {
